@@ -66,7 +66,23 @@ def run(pid, tier):
             v = str(ev.get('verdict'))
             o.finding(kind='trace', ty=ev.get('ty'), verdict=v.split(' @ ')[0][:80], want=ev.get('want'), event=ev,
                       signature='trace:%s:%s' % (ev.get('ty'), v.split(' @ ')[0][:60]))
+    # float weights: the exact induced law over the two words of sample() (columns x threshold prefix)
+    fl = wd / 'alias_flaw.ndjson'
+    s2 = rdv(['ftree-drive', '--alias', '--seed', sd, '--count', 150 if not thorough else 3000, '--out', fl])
+    r2 = tlc('TraceFloatLaw', 'TraceFloatLaw.cfg', pid, 'trace_flaw', trace_mode=True, env={'TRACE': fl}, timeout=3000, heap='4g')
+    require_ok(r2, 'TraceFloatLaw')
+    if r2.rejected or r2.violated:
+        raise ToolError('alias float law trace not consumed: %s' % (r2.rejected or r2.violated))
+    o.add_tlc(r2, 'TraceFloatLaw: %d float alias tables (exact two-word law vs weight / total)' % s2['events'])
+    o.traces += s2['events']
+    for (ln, ev) in parse_bad(r2.out):
+        res = str(ev.get('res'))
+        o.finding(kind='float-law', ty=ev.get('ft'), res=res.split(' @ ')[0][:80], show=ev.get('show'), event={k: v for k, v in ev.items() if k not in ('cols', 'wq')},
+                  signature='float-law:%s:%s' % (ev.get('ft'), res.split(' @ ')[0][:40]))
+    o.samples.append({'kind': 'float alias law event', 'event': {k: (v[:3] if k == 'cols' else v) for k, v in json.loads(fl.read_text().splitlines()[0]).items()}})
     o.assumptions = [
+        'FLOAT weights, law: for 150 (thorough 3000) f32 and f64 tables per run (few-bit and full-mantissa weights, lengths 2..12) every column\'s threshold is located by bisection on the second word and '
+        'TraceFloatLaw.tla checks | mass_k W - n w_k 2^64 | <= tol n W 2^64 in exact integers (tol 2^-38 f64, 2^-18 f32) and that a zero weight is never returned; the column draw itself (rand\'s Uniform<u32>, exactly uniform by rejection) is trusted, its measured widths are only checked to be 2^64/n within 2^-28',
         'rand 0.10.2 Uniform<u32>/Uniform<W> word->value maps are measured with samplers built the same way (Uniform::new(0,n), Uniform::new(0,sum))',
         'wide types are bound through the per-length two-scale (MAX/len <-> Q); the ticket sweep runs only for vectors of small weights',
         'float reconstruction is judged with the declared tolerance 8+4*len units of eps*max(w_i,sum/len)',
